@@ -8,7 +8,7 @@ import numpy as np
 
 from skchange.anomaly_scores import BaseLocalAnomalyScore, BaseSaving
 from skchange.change_detectors.base import ChangeDetector
-from skchange.change_scores import BaseChangeScore
+from skchange.change_scores import CUSUM, BaseChangeScore
 from skchange.costs import BaseCost, L2Cost
 
 # Evaluation counters are kept outside the estimator objects, keyed by a user-chosen tag,
@@ -211,6 +211,57 @@ class L1Cost(BaseCost):
             seg = self._data[s:e]
             out[i] = self.scale * np.abs(seg - self._loc).sum(axis=0)
         return out
+
+
+class DirectLocalMeanScore(BaseLocalAnomalyScore):
+    """A directly implemented user local anomaly score that overrides `_check_cuts` following the library's own
+    pattern (as LocalAnomalyScore does): |mean(inner) - mean(surroundings)| * sqrt(len(inner)) per column."""
+
+    def __init__(self, msize=1):
+        self.msize = msize
+        super().__init__()
+
+    @property
+    def min_size(self):
+        return self.msize
+
+    def _fit(self, X, y=None):
+        Xa = np.asarray(X, dtype=float)
+        self._rows = Xa.reshape(-1, 1) if Xa.ndim == 1 else Xa
+        return self
+
+    def _check_cuts(self, cuts):
+        from skchange.utils.validation.cuts import check_cuts_array
+
+        cuts = check_cuts_array(cuts, last_dim_size=self.expected_cut_entries)
+        inner = np.diff(cuts[:, [1, 2]], axis=1)
+        surrounding = np.diff(cuts[:, [0, 1]], axis=1) + np.diff(cuts[:, [2, 3]], axis=1)
+        if not np.all(inner >= self.min_size) or not np.all(surrounding >= self.min_size):
+            raise ValueError("inner and surrounding parts must be at least min_size long")
+        return cuts
+
+    @staticmethod
+    def value(rows, s, a, b, e):
+        inner = rows[a:b]
+        sur = np.concatenate((rows[s:a], rows[b:e]))
+        return np.abs(inner.mean(axis=0) - sur.mean(axis=0)) * np.sqrt(len(inner))
+
+    def _evaluate(self, cuts):
+        return np.array([self.value(self._rows, *c) for c in cuts]).reshape(len(cuts), self._rows.shape[1])
+
+
+class WeightedCUSUM(CUSUM):
+    """A user change score that *subclasses the built-in CUSUM* and overrides its evaluation: column j is
+    multiplied by weights[j % len(weights)] (possibly 0 or negative)."""
+
+    def __init__(self, weights=(1.0,)):
+        self.weights = weights
+        super().__init__()
+
+    def _evaluate(self, cuts):
+        out = super()._evaluate(cuts)
+        w = np.asarray([self.weights[j % len(self.weights)] for j in range(out.shape[1])], dtype=float)
+        return out * w
 
 
 class MemoisingAbsCost(BaseCost):
